@@ -105,7 +105,9 @@ impl Scenario for Forward {
                 1 => ReqBody::Unsized(rng.size(1, 16 * 1024) as usize),
                 _ => ReqBody::Sized(rng.usize_below(64)),
             }
-        } else if method == "DELETE" && rng.chance(1, 3) {
+        } else if matches!(method.as_str(), "DELETE" | "GET" | "OPTIONS") && rng.chance(1, 3) {
+            // a body on a method that seldom has one is still a body (RFC 7231 4.3.1: "no
+            // defined semantics", not "no body")
             ReqBody::Sized(rng.usize_below(100))
         } else {
             ReqBody::None
